@@ -123,11 +123,14 @@ def run(pid, tier):
 
     # ---- leg B: implementation state graphs
     tot_nodes = tot_edges = tot_product = tot_gen = 0
+    truncated = []
     exercised = {"pruned_ready_edges": 0, "pruned_stub_edges": 0, "kept_forgotten_edges": 0, "kept_at_depth_Dm1": 0,
                  "refused_new": 0, "aborts": 0, "restart_unequal_states": 0, "restart_bad_states": 0,
                  "restore_fails_states": 0, "mixed_prune_edges": 0, "mixed_prune_stub_above_edges": 0}
     for name, pl, maxshort, maxbury in _plans(tier):
-        ex = lc.explore(binpath, name, pl, maxshort, maxbury, threads=8 if quick else 12)
+        ex = lc.explore(binpath, name, pl, maxshort, maxbury, threads=8 if quick else 12,
+                        max_states=25000 if quick else 120000)
+        truncated += [name] if ex["truncated"] else []
         r = lc.impl_tlc(ex)
         rep = r["report"]
         if not rep["root_ok"]:
@@ -174,6 +177,9 @@ def run(pid, tier):
                                                          " -> " + {1: "ok", 0: "refused", 2: "abort"}[e[2]]
                                                          for e in row["e"]]})
                     break
+    if truncated and not violations:
+        raise vlib.ToolError("lifecycle exploration exhausted its state budget in %s and found no violation: "
+                             "the result is incomplete" % truncated)
     # vacuity of leg B: the situations the property talks about must have been exercised on the real code
     for k in ("pruned_ready_edges", "pruned_stub_edges", "kept_at_depth_Dm1", "refused_new", "mixed_prune_edges",
               "mixed_prune_stub_above_edges"):
